@@ -313,7 +313,14 @@ def check(prog, run):
             kf.flow(m, ps[0], kf.expand(h2k[n]))
             r.instance("%s.%s(%s: %s): %d attribute reads followed" % (c.name, n, ps[0], "|".join(sorted(h2k[n])), kf.reads - before))
     seen_p = set()
+    from .. import pathfeas, dispatch as _dispatch
+    _hier = _dispatch.Hierarchy(prog)
     for fi, node, attr, missing, chain in kf.problems:
+        # second opinion (vf/pathfeas.py): a read protected by a correlation carried in a local is not evaluated for that class
+        if isinstance(node.value, ast.Name):
+            missing = [c for c in missing if pathfeas.evaluated_for(prog, fi, node, node.value.id, c, _hier) is not False]
+            if not missing:
+                continue
         k = (fi.key, attr, tuple(missing))
         if k in seen_p:
             continue
